@@ -435,11 +435,29 @@ impl Tracer {
                                 .breakpoints
                                 .iter()
                                 .find(|brkpt| brkpt.addr == current_pc);
-                            debug_assert!(
-                                mb_hit_brkpt.is_some(),
-                                "the interrupt caught but the breakpoint was not found"
-                            );
                             let Some(&brkpt) = mb_hit_brkpt else {
+                                // A trap of a breakpoint that does not exist anymore. A group-stop
+                                // (PTRACE_INTERRUPT) is reported before the signals a tracee has
+                                // pending, so a tracee may have been stopped with this SIGTRAP in
+                                // its queue, and the breakpoint (a user's one, or a temporary one
+                                // of a step that is over) was removed before the trap could be
+                                // reported. The original instruction is back in place and the
+                                // program counter points to it again: there is nothing to report,
+                                // mark the tracee as stopped so that it goes on with the others.
+                                let original_restored = sys::ptrace::read(
+                                    pid,
+                                    current_pc.as_usize() as *mut libc::c_void,
+                                )
+                                .is_ok_and(|word| word as u64 & 0xff != 0xCC);
+                                debug_assert!(
+                                    original_restored,
+                                    "the interrupt caught but the breakpoint was not found"
+                                );
+                                if original_restored {
+                                    self.tracee_ctl
+                                        .tracee_ensure_mut(pid)
+                                        .set_stop(StopType::Interrupt);
+                                }
                                 return Ok(None);
                             };
 
